@@ -184,11 +184,13 @@ def opHyd (a b : View) : String :=
       -- (`C05_load_realises_stmt`), the parser read `domOf a` (`C05_parse_print`), the walk returned
       -- the specified state, bound (`C05_hydrate_succeeds`)
       let specOK := stateBeq o.state (adopt a .firstChild f).1 && bound d o.state &&
-        realisesB d root f ts && decide (ts = domOf a)
+        realisesB d root f ts && (hasRawKids a || decide (ts = domOf a)) &&
+        treesBeq ((serializeKids d root).getD []) (toDomTrees ts)
       let good := o.created == 0 && d2.errs.isEmpty && treesBeq (stripL after) (stripL csr) && specOK
       let cls :=
         if good then "ok"
         else if !specOK then "fail model-self-check"
+        else if hasRawKids a then "fail raw-text-child"
         else if hasEmptyText a then "fail empty-text"
         else "fail unexplained"
       s!"{head} tree={orDash (encH ts)} hyd=ok created={o.created} after={orDash (encD after)} csr={orDash (encD csr)} ## {cls}"
